@@ -18,7 +18,7 @@ use std::collections::BTreeMap;
 #[derive(Clone, Debug, Serialize, Deserialize, PartialEq)]
 pub struct RulesTrace {}
 
-const UNIVERSE: &[&str] = &["foo", "bar", "baz", "src/a", "src/b", "src/x/c", "src/foo", "out/a", "out/b", "out/foo", "dst/a", "dst/foo", "a.c", "b.h", "x/y/z"];
+const UNIVERSE: &[&str] = &[".hidden", "src/.cfg", "foo", "bar", "baz", "src/a", "src/b", "src/x/c", "src/foo", "out/a", "out/b", "out/foo", "dst/a", "dst/foo", "a.c", "b.h", "x/y/z"];
 const PATTERNS: &[&str] = &["*", "foo", "bar", "src/*", "*.c", "src/a", "?ar", "[fb]oo", "[!f]oo", "out/*", "nothing", "a.c", "src/x/*", "dst/*", "a", "b", "*/a", "ba?", "x/y/z", "[a-c].[ch]"];
 const PREFIXES: &[&str] = &["src", "out", "dst", "src/x", "x/y", "nowhere"];
 
